@@ -396,15 +396,16 @@ def _svg_placements(ctx):
             if call_matches(tt, 'Cell2::periodic_images'):
                 pos, _ = through(t, tt['args'][1])
                 shells = const_value(t.origin(tt['args'][2]).get('c', {}))
-                zero = const_value(t.origin(tt['args'][3]).get('c', {}))
+                from .C14 import excludes_identity, flag_value
+                zv = flag_value(t, tt['args'][3])
                 nm, _ = item_source(tt['args'][1])
                 if nm and nm.endswith('relative_positions'):
                     n_img += 1
-                    if not (shells == 1 and zero is False):
-                        bad.append('periodic_images(position, %s, %s): expected (1, false)' % (shells, zero))
+                    if not (shells == 1 and zv is not None and excludes_identity(ctx, zv) is True):
+                        bad.append('periodic_images(position, %s, %s): expected one shell without the untranslated image' % (shells, zv))
                 elif nm and nm.endswith('Transform2::identity'):
-                    if not (shells == 1 and zero is True):
-                        bad.append('cell images periodic_images(identity, %s, %s)' % (shells, zero))
+                    if not (shells == 1 and zv is not None and excludes_identity(ctx, zv, want_all=True) is True):
+                        bad.append('cell images periodic_images(identity, %s, %s): expected one shell with the untranslated image' % (shells, zv))
                 else:
                     bad.append('periodic_images applied to %s' % nm)
             if is_trait_call(tt, 'ToSVG', 'as_svg') and 'Transform2' in (tt['args'][0].get('ty', '')):
